@@ -38,6 +38,11 @@ class MachineryError(Exception):
     pass
 
 
+class ImplMisbehaved(Exception):
+    """The implementation under test did something no correct tree does while the harness was
+    observing it (e.g. one add changed two cells of a row of an empty probe sketch)."""
+
+
 def die_machinery(msg):
     print("MACHINERY-ERROR: " + msg, flush=True)
     sys.exit(2)
